@@ -224,7 +224,7 @@ def rand_case(rng):
             "ratio": rng.choice([1, 1, 2, 0.5, 3, 0.25, 1.5, 5, 10, 0.1, 99, 150, 0.01, 0.005]), "mean": rng.choice([1.0, 10.0, -5.0]),
             "var": rng.choice([0.5, 4.0, 100.0]),
             # tiny effects need sample sizes of 1e7 .. 1e9, extreme ratios leave one group a handful of observations
-            "effects": rng.sample([0.0005, 0.002, 0.02, 0.05, 0.1, 0.3, 1.0], 2), "n_obs": rng.sample([60, 200, 1000, 20000], 2)}
+            "effects": rng.sample([0.000002, 0.0005, 0.002, 0.02, 0.05, 0.1, 0.3, 1.0], 2), "n_obs": rng.sample([60, 200, 1000, 20000], 2)}
 
 
 def sequence_kinds():
